@@ -17,6 +17,9 @@ type delimCfg struct {
 	L, R, CL, CR  string
 	customAct     bool
 	customComment bool
+	// half: only one marker of a pair is configured (the other argument of the option is ""): the unset one stays
+	// at its default, which is what L/R/CL/CR spell out
+	halfAct, halfComment [2]string
 }
 
 var delimCfgs = []delimCfg{
@@ -34,6 +37,10 @@ var delimCfgs = []delimCfg{
 	{Name: "dollar", L: "${", R: "}", CL: "$*", CR: "*$", customAct: true, customComment: true},
 	{Name: "symcomment", L: "{{", R: "}}", CL: "##", CR: "##", customComment: true},
 	{Name: "tilde", L: "[[", R: "]]", CL: "~", CR: "~", customAct: true, customComment: true},
+	{Name: "leftcommentonly", L: "{{", R: "}}", CL: "<#", CR: "*}", halfComment: [2]string{"<#", ""}},
+	{Name: "rightcommentonly", L: "{{", R: "}}", CL: "{*", CR: "#}", halfComment: [2]string{"", "#}"}},
+	{Name: "leftactonly", L: "<%", R: "}}", CL: "{*", CR: "*}", halfAct: [2]string{"<%", ""}},
+	{Name: "rightactonly", L: "{{", R: "%>", CL: "[*", CR: "*]", halfAct: [2]string{"", "%>"}, customComment: true},
 }
 
 func (d delimCfg) opts() []jet.Option {
@@ -43,6 +50,12 @@ func (d delimCfg) opts() []jet.Option {
 	}
 	if d.customComment {
 		o = append(o, jet.WithCommentDelims(d.CL, d.CR))
+	}
+	if d.halfAct != [2]string{} {
+		o = append(o, jet.WithDelims(d.halfAct[0], d.halfAct[1]))
+	}
+	if d.halfComment != [2]string{} {
+		o = append(o, jet.WithCommentDelims(d.halfComment[0], d.halfComment[1]))
 	}
 	return o
 }
@@ -195,7 +208,7 @@ func c03genText(r *rand.Rand, shape int) string {
 }
 
 func c03genComment(r *rand.Rand, d delimCfg) string {
-	pool := []string{" c ", "", "x", " {{ 1 }} ", "\n multi\n line ", " - ", "é日", " * ", "{", "}}", " -"}
+	pool := []string{" c ", "", "x", " {{ 1 }} ", "\n multi\n line ", " - ", "é日", " * ", "{", "}}", " -", "- note ", "- ", "-", "- x -", "-\t", " note -"}
 	s := pool[r.Intn(len(pool))]
 	if strings.Contains(s, d.CR) || strings.Contains(s+d.CR[:len(d.CR)-1], d.CR) && len(d.CR) > 1 && strings.Index(s+d.CR, d.CR) < len(s) {
 		return " c "
